@@ -442,6 +442,120 @@ fn filter_search(cfg: &FCfg, depth: usize, problems: &mut Vec<Violation>) -> (u6
     (states, trans, execs)
 }
 
+/* ------------------------------------------------------------------------------------ */
+/* Part D: the receive path of a real handler (exemption bypass, both filter stages)     */
+/* ------------------------------------------------------------------------------------ */
+
+#[derive(Clone, Copy, Debug, PartialEq, Eq, Hash)]
+enum REv {
+    Arrive(u8, u8),
+    /// the node itself sends a request to the peer at ip 0 (its address becomes exempt)
+    Dial,
+    WaitHalf,
+}
+
+async fn recv_world(lists: u8, hist: &[REv]) -> Result<(u128, u64), Violation> {
+    use crate::hsim::{Body, Driver, Ev, HCfg, Monitors, NoDriver, Req, World};
+    let quotas = (2u64, 1u64, 3u64);
+    let fcfg = FCfg { lists, ip_n: quotas.0, node_n: quotas.1, total_n: quotas.2 };
+    let ghost_key = util::key(33);
+    let ghost_addr = SocketAddr::new(ips()[0], 30303);
+    let ghost = util::enr4(&ghost_key, 1, ghost_addr);
+    let cfg = HCfg { nodes: 1, workload: vec![Req { from: 0, to: 9, body: Body::Ping, with_enr: true }], packet_filter: true, rate_limits: Some(quotas), ghost: Some((ghost, ghost_addr, true)), ..Default::default() };
+    let monitors = Monitors { c03: false, c04: false, c13: false, c15: false, c19: false };
+    // the handler reads the process-global list
+    v::ban_list_set(initial_lists(&fcfg));
+    let mut w = World::build(&cfg, monitors).await;
+    let d: &dyn Driver = &NoDriver;
+    let mut refm = FRef { ip: Bucket { n: quotas.0, level: BTreeMap::new() }, node: Bucket { n: quotas.1, level: BTreeMap::new() }, total: Bucket { n: quotas.2, level: BTreeMap::new() }, banned_ips: if lists & 1 != 0 { vec![0] } else { vec![] }, banned_nodes: if lists & 4 != 0 { vec![0] } else { vec![] } };
+    let mut half = 0u64;
+    let mut exempt_hits = 0u64;
+    let mk = |clause: &str, key: &str, detail: String| Violation { clause: clause.into(), key: key.into(), detail, replay: json!({"engine":"filter","part":"receive-path","lists":lists,"history":format!("{:?}",hist)}) };
+    for (step, ev) in hist.iter().enumerate() {
+        match ev {
+            REv::Arrive(i, n) => {
+                let src = SocketAddr::new(ips()[*i as usize], 30303);
+                let exempt = w.nodes[0].wire.exemptions().iter().any(|(a, _)| *a == src);
+                let p = v::VPacket::new_random(&nodes()[*n as usize]);
+                let bytes = p.clone().encode(&w.nodes[0].id);
+                for e in w.last_raw.iter_mut() {
+                    e.clear();
+                }
+                w.deliver_raw(0, src, &bytes, 0, p.message_nonce, -1).await;
+                w.absorb().await;
+                let passed = w.last_raw[0].iter().any(|r| matches!(r, discv5::verif::HandlerOut::WhoAreYou(_)));
+                let want = if exempt {
+                    exempt_hits += 1;
+                    true
+                } else {
+                    // reference: the two filter stages
+                    let ip_permitted = *i == 0 && lists & 2 != 0;
+                    let node_permitted = *n == 0 && lists & 8 != 0;
+                    let s1 = if ip_permitted { true } else if refm.banned_ips.contains(i) { false } else if !refm.ip.allows(*i, half) { refm.banned_ips.push(*i); false } else { refm.total.allows(0, half) };
+                    s1 && (if node_permitted { true } else if refm.banned_nodes.contains(n) { false } else if !refm.node.allows(*n, half) { refm.banned_nodes.push(*n); false } else { true })
+                };
+                if passed != want {
+                    return Err(mk(
+                        if exempt { "an address this node is waiting for passes the inbound filter" } else if passed { "unsolicited datagrams beyond quota / from banned senders are dropped" } else { "traffic within every applicable quota is never refused" },
+                        &format!("recv:{}:{}", if exempt { "exempt" } else { "unsolicited" }, if passed { "passed" } else { "dropped" }),
+                        format!("step {step}: datagram from ip {i} claiming node {n}: reached the handler = {passed}, expected {want} (exempt = {exempt})"),
+                    ));
+                }
+            }
+            REv::Dial => {
+                if w.submitted[0] {
+                    continue;
+                }
+                w.step(&Ev::Submit(0), d).await;
+            }
+            REv::WaitHalf => {
+                w.advance_through(Duration::from_nanos(HALF)).await;
+                half += 1;
+            }
+        }
+    }
+    let fp = mc::fp_of(&(refm.ip.normalized(half), refm.node.normalized(half), refm.total.normalized(half), &refm.banned_ips, &refm.banned_nodes, w.nodes[0].wire.exemptions(), w.submitted.clone()));
+    Ok((fp, exempt_hits))
+}
+
+fn recv_search(depth: usize, problems: &mut Vec<Violation>) -> (u64, u64, u64) {
+    let evs = [REv::Arrive(0, 0), REv::Arrive(0, 1), REv::Arrive(1, 0), REv::Arrive(1, 1), REv::Dial, REv::WaitHalf];
+    let (mut states, mut execs, mut exempt) = (0u64, 0u64, 0u64);
+    for lists in [0u8, 1, 4, 3, 12] {
+        let mut seen: HashSet<u128> = HashSet::new();
+        let mut frontier: Vec<Vec<REv>> = vec![vec![]];
+        for _ in 0..depth {
+            let mut next = vec![];
+            for h in &frontier {
+                for ev in &evs {
+                    let mut hist = h.clone();
+                    hist.push(*ev);
+                    execs += 1;
+                    match crate::rt::run(recv_world(lists, &hist)) {
+                        Ok((fp, ex)) => {
+                            exempt += ex;
+                            if seen.insert(fp) {
+                                states += 1;
+                                next.push(hist);
+                            }
+                        }
+                        Err(v) => {
+                            if problems.len() < 5 {
+                                problems.push(v);
+                            }
+                        }
+                    }
+                }
+            }
+            frontier = next;
+            if !problems.is_empty() {
+                break;
+            }
+        }
+    }
+    (states, execs, exempt)
+}
+
 pub fn run() {
     let mut rep = Report::new("C18", "model_checking");
     let thorough = rep.thorough();
@@ -475,24 +589,28 @@ pub fn run() {
             fe += e;
         }
     }
+    // part D: through the receive path of a real handler
+    let (rs, re, rx) = recv_search(if thorough { 5 } else { 4 }, &mut problems);
+    rep.set("receive_path_states", rs);
+    rep.set("receive_path_executions", re);
+    rep.set("receive_path_exempt_arrivals", rx);
     v::ban_list_set(saved);
     rep.set("filter_states", fs);
     rep.set("filter_executions", fe);
     rep.set("filter_depth", fdepth as u64);
-    rep.set("states", states + fs);
-    rep.set("transitions", trans + ft);
-    rep.set("traces_validated_against_impl", trans + fe + paths);
-    rep.set("evaluations", trans + fe + paths);
-    rep.set("distinct_nontrivial", states + fs);
+    rep.set("states", states + fs + rs);
+    rep.set("transitions", trans + ft + re);
+    rep.set("traces_validated_against_impl", trans + fe + paths + re);
+    rep.set("evaluations", trans + fe + paths + re);
+    rep.set("distinct_nontrivial", states + fs + rs);
     rep.set("exhaustive", true);
-    rep.set("rule", "A: explicit-state BFS (cloned states) of the real Limiter<u8> for burst 1,2,3 over {arrive(k1|k2), wait(T/2), wait(burst·T), prune} to the stated depth, every decision compared with an exact token bucket; B: every path of the stated depth without state merging — window bound on the pass log and prune-differential; C: history-replay BFS of the real packet Filter (real RateLimiter, process-global permit/ban list, 2 IPs × 2 node ids, all 16 ban/permit combinations, several quota sets) against a two-stage reference incl. ban list contents and ban expiry");
+    rep.set("rule", "A: explicit-state BFS (cloned states) of the real Limiter<u8> for burst 1,2,3 over {arrive(k1|k2), wait(T/2), wait(burst·T), prune} to the stated depth, every decision compared with an exact token bucket; B: every path of the stated depth without state merging — window bound on the pass log and prune-differential; C: history-replay BFS of the real packet Filter (real RateLimiter, process-global permit/ban list, 2 IPs × 2 node ids, all 16 ban/permit combinations, several quota sets) against a two-stage reference incl. ban list contents and ban expiry; D: history-replay BFS over {datagram from ip×id, the node dials the peer at ip 0, wait} on a real Handler with the packet filter enabled, through the real RecvHandler::handle_inbound: a datagram reaches the handler iff its source address is exempt (outstanding request) or the two-stage reference lets it pass");
     rep.sample(json!({"part":"filter","lists":"ip0 banned+permitted (3)","history":"[Arrive(0,0), Arrive(0,0), Arrive(0,1), WaitHalf, Arrive(1,0)]"}));
     rep.assume("time granularity T/2 (T = token period); quotas use whole-second periods so all arithmetic is exact");
     rep.assume("max_nodes_per_ip / max_bans_per_ip heuristics are disabled (not part of the property)");
-    rep.assume("the exemption bypass of the receive path (expected responses skip both stages) is exercised by the handler engine");
     for p in problems {
         rep.violation(p);
     }
-    rep.require_nonzero(&["limiter_refusals", "limiter_pruned_entries", "filter_states"]);
+    rep.require_nonzero(&["limiter_refusals", "limiter_pruned_entries", "filter_states", "receive_path_exempt_arrivals"]);
     rep.finish();
 }
